@@ -596,3 +596,22 @@ func expandMap(e Event) []Event {
 	}
 	return append(out, ObjEnd())
 }
+
+// SameEvents compares two basic-event streams; by-reference and by-value delivery of strings and keys are the same event.
+func SameEvents(a, b []Event) bool {
+	if len(a) != len(b) {
+		return false
+	}
+	for i := range a {
+		x, y := a[i], b[i]
+		if x.K != y.K || x.Len != y.Len || x.BT != y.BT || x.B != y.B || x.S != y.S || x.I != y.I || x.U != y.U {
+			return false
+		}
+	}
+	return true
+}
+
+// IsPrefix tells whether a is a prefix of b.
+func IsPrefix(a, b []Event) bool {
+	return len(a) <= len(b) && SameEvents(a, b[:len(a)])
+}
